@@ -322,7 +322,7 @@ class C07(core.Check):
         'lit:char', 'byte:negative', 'byte:beyond-length', 'trunc:positive', 'trunc:negative', 'real-quotient',
         'malformed:drop-operand', 'malformed:double-operator', 'malformed:unbalance', 'malformed:juxtapose',
         'malformed:trailing-operator', 'malformed:unclosed-func', 'malformed:foreign-char', 'channel:cli',
-        'channel:cli-malformed', 'channel:direct']}
+        'channel:cli-malformed', 'channel:direct', 'channel:cli-operand']}
 
     def __init__(self):
         self.n_expr = 0
@@ -335,6 +335,10 @@ class C07(core.Check):
 
     def _cli_case(self, items, endian, fmt, rng, malformed=None):
         obj = isa.base_isa(address_size=16, endian=endian)
+        # an instruction whose single operand is a 64-bit numeric argument: the same expressions in operand position
+        obj['operand_sets']['imm64'] = {'operand_values': {'i64': {'type': 'numeric', 'argument': {'size': 64, 'byte_align': True}}}}
+        obj['instructions']['w64'] = {'bytecode': {'value': 0x64, 'size': 8},
+                                      'operands': {'count': 1, 'operand_sets': {'list': ['imm64']}}}
         fn, text = isa.render_isa(obj, fmt)
         lines = ['; C07 cli channel']
         for k, v in LABELS.items():
@@ -346,11 +350,14 @@ class C07(core.Check):
             if t.startswith("'") or t.startswith('"'):
                 t = '0 + ' + t     # a leading quote is the data directive's string syntax (C11), not an expression
                 it = dict(it, text=t)
-            lines.append(f'.8byte {t}')
+            as_operand = rng.random() < 0.4 and '[' not in t and ']' not in t and '{' not in t and '}' not in t
+            lines.append(f'w64 {t}' if as_operand else f'.8byte {t}')
+            it = dict(it, operand=as_operand)
             line_of.append(it)
         if malformed is not None:
             pos = rng.randrange(0, len(line_of) + 1)
-            lines.insert(len(lines) - len(line_of) + pos, f'.8byte {malformed["text"]}')
+            lines.insert(len(lines) - len(line_of) + pos, (f'w64 {malformed["text"]}' if rng.random() < 0.3 and malformed['text'].strip()
+                                                           else f'.8byte {malformed["text"]}'))
         src = '\n'.join(lines) + '\n'
         return {'runs': [{'files': {fn: text, 'p.asm': src}, 'argv': ['compile', '-c', fn, 'p.asm', '-o', 'out.bin'],
                           'probes': ['steps'], 'step_limit': 400000}],
@@ -451,14 +458,19 @@ class C07(core.Check):
             return [core.violated('wellformed-rejected/cli', {'exit': o.get('exit'), 'stderr': o.get('stderr', '')[-600:],
                                                               'texts': [it['text'] for it in meta['items']]})]
         data = bytes.fromhex(img)
+        off = 0
         for i, it in enumerate(meta['items']):
             self.n_expr += 1
-            chunk = data[8 * i:8 * i + 8]
+            if it.get('operand'):
+                off += 1          # the w64 opcode byte
+            chunk = data[off:off + 8]
+            off += 8
             got = int.from_bytes(chunk, meta['endian']) if len(chunk) == 8 else None
             exp = it['exp'] & ((1 << 64) - 1)
             r = {'v': got}
             if got == exp:
-                vs.append(core.held(buckets=it.get('buckets', ()), nt=it['shape'] if it['nt'] else None))
+                vs.append(core.held(buckets=list(it.get('buckets', ())) + (['channel:cli-operand'] if it.get('operand') else []),
+                                    nt=it['shape'] if it['nt'] else None))
             else:
                 vs.append(core.violated(self._sig(it, 'cli'), {'text': it['text'], 'expected': it['exp'], 'got_u64': got},
                                         buckets=it.get('buckets', ()), nt=it['shape'] if it['nt'] else None))
